@@ -37,6 +37,8 @@ enum Kind {
     Short,
     HeaderOnlyError,
     HeaderOnlyErrorWrongId,
+    /// the request's ID, QR set, NOERROR, no question at all - and an answer record for some other name
+    Questionless,
     Truncated,
     TruncatedWithAnswer,
     Foreign,
@@ -88,6 +90,7 @@ fn kind_name(k: Kind) -> &'static str {
         Kind::Short => "short",
         Kind::HeaderOnlyError => "header-only-error",
         Kind::HeaderOnlyErrorWrongId => "header-only-error-wrong-id",
+        Kind::Questionless => "questionless-answer",
         Kind::Truncated => "truncated",
         Kind::TruncatedWithAnswer => "truncated-with-answer",
         Kind::Foreign => "foreign-answer",
@@ -129,6 +132,11 @@ fn reply(rng: &mut Rng, req: &[u8], kind: Kind, via: u8, foreign: Option<&[u8]>)
     }
     if matches!(kind, Kind::HeaderOnlyError | Kind::HeaderOnlyErrorWrongId) {
         return Some(w::header(id, 0x8182, [0, 0, 0, 0]));
+    }
+    if kind == Kind::Questionless {
+        let mut m = w::header(id, flags, [0, 1, 0, 0]);
+        m.extend(w::compose_record(b"\x05other\x04name\x00", 1, 1, 60, &[10, 9, 9, via]));
+        return Some(m);
     }
     let with_answer = kind != Kind::Truncated;
     let mut m = w::header(id, flags, [1, with_answer as u16, 0, 0]);
@@ -353,7 +361,7 @@ fn gen_script(rng: &mut Rng, path_has_stream: bool, dgram: bool) -> Script {
         let mut acts = Vec::new();
         let noise = rng.below(3);
         for _ in 0..noise {
-            let kind = *rng.pick(&[Kind::WrongId, Kind::WrongQuestion, Kind::NotResponse, Kind::Garbage, Kind::Short, Kind::Foreign, Kind::HeaderOnlyErrorWrongId]);
+            let kind = *rng.pick(&[Kind::WrongId, Kind::WrongQuestion, Kind::NotResponse, Kind::Garbage, Kind::Short, Kind::Foreign, Kind::HeaderOnlyErrorWrongId, Kind::Questionless]);
             acts.push(Act { delay_ms: if rng.chance(1, 3) { rng.range(400, 1950) } else { rng.range(0, 400) } as u64, kind });
         }
         let fin = match rng.below(12) {
@@ -878,7 +886,7 @@ pub fn run(c: &mut Ctx) {
         one_case(c, fam, idx, false);
     }
     if !c.replaying() {
-        for k in ["requests_answered", "requests_failed", "header_only_errors_delivered", "ids_used_for_more_than_one_request", "tc_fallbacks_completed", "peer_sent:wrong-id", "peer_sent:wrong-question", "peer_sent:foreign-answer", "peer_sent:close", "cases:stream", "reused_idle_connection_cases", "burst_then_close_cases", "long_connection_requests", "threads_cases", "cases:multi_stream", "cases:redundant", "cases:load_balancer"] {
+        for k in ["requests_answered", "requests_failed", "header_only_errors_delivered", "ids_used_for_more_than_one_request", "tc_fallbacks_completed", "peer_sent:wrong-id", "peer_sent:questionless-answer", "peer_sent:wrong-question", "peer_sent:foreign-answer", "peer_sent:close", "cases:stream", "reused_idle_connection_cases", "burst_then_close_cases", "long_connection_requests", "threads_cases", "cases:multi_stream", "cases:redundant", "cases:load_balancer"] {
             c.floor(k, 3);
         }
     }
